@@ -2,6 +2,7 @@ package pbar
 
 import (
 	"io"
+	"sync"
 
 	"github.com/vbauerster/mpb/v8"
 )
@@ -33,6 +34,7 @@ func NewNoopBar() Bar {
 }
 
 type bar struct {
+	mu    sync.Mutex
 	b     *mpb.Bar
 	c     *Container
 	total int64
@@ -50,6 +52,9 @@ func newBar(c *Container, total int64, name string, unit int) *bar {
 }
 
 func (b *bar) ensureInternalBar() {
+	// Incr is called from several worker goroutines: create the bar only once
+	b.mu.Lock()
+	defer b.mu.Unlock()
 	if b.b != nil {
 		return
 	}
